@@ -377,6 +377,43 @@ class Interp:
                     self.stmt(s)
                 self.loop_var = None
                 return
+            # strided counters: `for k, src in enumerate(range(0, N, 4))` (src = 4*k) and `for d, s in zip(range(0, M, 2), range(0, N, 4))`
+            # (d = 2*k, s = 4*k) are the plain pixel loop over k with the counters written as multiples of k
+            def _stride(r: ast.AST) -> Optional[int]:
+                if isinstance(r, ast.Call) and dotted(r.func) == 'range' and len(r.args) == 3 and isinstance(r.args[0], ast.Constant) and r.args[0].value == 0 \
+                        and isinstance(r.args[2], ast.Constant) and isinstance(r.args[2].value, int) and r.args[2].value > 0:
+                    return r.args[2].value
+                if isinstance(r, ast.Call) and dotted(r.func) == 'range' and len(r.args) == 1:
+                    return 1
+                return None
+            subst: Dict[str, int] = {}
+            kname = None
+            if isinstance(it, ast.Call) and dotted(it.func) == 'enumerate' and len(it.args) == 1 and isinstance(st.target, ast.Tuple) and len(st.target.elts) == 2 \
+                    and all(isinstance(e_, ast.Name) for e_ in st.target.elts) and _stride(it.args[0]) is not None:
+                kname = st.target.elts[0].id
+                subst[st.target.elts[1].id] = _stride(it.args[0])          # type: ignore[assignment]
+            elif isinstance(it, ast.Call) and dotted(it.func) == 'zip' and isinstance(st.target, ast.Tuple) and len(st.target.elts) == len(it.args) >= 2 \
+                    and all(isinstance(e_, ast.Name) for e_ in st.target.elts) and all(_stride(a_) is not None for a_ in it.args):
+                kname = '_pixel_index'
+                for e_, a_ in zip(st.target.elts, it.args):
+                    subst[e_.id] = _stride(a_)          # type: ignore[assignment]
+            if kname is not None:
+                if self.loop_var is not None:
+                    raise AnalysisError(f'line {st.lineno}: nested pixel loops')
+                import copy as _copy
+
+                class _S(ast.NodeTransformer):
+                    def visit_Name(self, n: ast.Name) -> ast.AST:      # noqa: N802
+                        if n.id in subst and isinstance(n.ctx, ast.Load):
+                            k_ = ast.Name(id=kname, ctx=ast.Load())
+                            new_ = k_ if subst[n.id] == 1 else ast.BinOp(left=ast.Constant(value=subst[n.id]), op=ast.Mult(), right=k_)
+                            return ast.fix_missing_locations(ast.copy_location(new_, n))
+                        return n
+                self.loop_var = kname
+                for s_ in st.body:
+                    self.stmt(_S().visit(_copy.deepcopy(s_)))
+                self.loop_var = None
+                return
             raise AnalysisError(f'line {st.lineno}: loop `{ast.unparse(st.iter)[:40]}` not recognised')
         if isinstance(st, ast.If):
             self.ev(st.test)
